@@ -268,16 +268,16 @@ end ptr
 /-! ## diagonal -/
 section diag
 
-/-- **`diagonal(A, invert)`**, structural part (any carrier): entry `i` stays uninitialised (`none`) iff row `i`
-stores no diagonal entry; otherwise the FIRST stored diagonal entry `v` is used: `v` itself, or with `invert` its
-inverse, where a zero diagonal is replaced by the identity. -/
+/-- **`diagonal(A, invert)`**, structural part (any carrier): every entry is written (fix baae926); a row that stores
+no diagonal entry gets the value of a zero diagonal (`0`, resp. the identity with `invert`), otherwise the FIRST stored
+diagonal entry `v` is used: `v` itself, or with `invert` its inverse, where a zero diagonal is replaced by the identity. -/
 theorem diagonal_first_entry {K : Type} [Zero K] [One K] [Inv K] [DecidableEq K] (A : CRS K) (invert : Bool)
     (i : Nat) (hi : i < A.nrows) :
-    ((diagonal A invert).getD i none = none ↔ i ∉ (A.row i).map (·.1)) ∧
+    (i ∉ (A.row i).map (·.1) → (diagonal A invert).getD i none = some (if invert then 1 else 0)) ∧
     (∀ (pre post : Row K) (v : K), A.row i = pre ++ (i, v) :: post → i ∉ pre.map (·.1) →
       (diagonal A invert).getD i none = some (if invert then (if v = 0 then 1 else v⁻¹) else v)) ∧
     (diagonal A invert).size = A.nrows :=
-  ⟨diagonal_none_iff A invert i hi, fun pre post v h1 h2 => diagonal_first A invert i hi pre post v h1 h2,
+  ⟨K2.diagonal_missing A invert i hi, fun pre post v h1 h2 => diagonal_first A invert i hi pre post v h1 h2,
     diagonal_size A invert⟩
 
 /-- **`diagonal`**, denotational part (field): when row `i` stores exactly one diagonal entry the result is the
@@ -288,7 +288,7 @@ theorem diagonal_spec {K : Type} [Field K] [DecidableEq K] (A : CRS K) (i : Nat)
     (diagonal A true).getD i none = some (if A.get i i = 0 then 1 else (A.get i i)⁻¹) :=
   K2.diagonal_spec A i hi h1
 
-example : diagonal (⟨2, #[[(1, (3 : Rat)), (0, 2)], [(0, 5)]]⟩ : CRS Rat) true = #[some (1 / 2), none] := by
+example : diagonal (⟨2, #[[(1, (3 : Rat)), (0, 2)], [(0, 5)]]⟩ : CRS Rat) true = #[some (1 / 2), some 1] := by
   decide +kernel
 
 end diag
